@@ -725,7 +725,14 @@ def python_source(am, prog, clsname="M"):
                 for s in st[1]:
                     sexpr[s["k"]] = f"{st[2]}.s{s['k']}"
             elif k == "assign":
-                body.append(f"{evname(st[1])} = {tx(st[2])}")
+                e = st[2]
+                if e[0] == "or" and e[1][0] == "ref" and (st[1] + len(body)) % 2 == 0:
+                    # `tour = advance` then `tour |= more`: augmented assignment builds a new list, the shared one
+                    # (`advance`) must not grow
+                    body.append(f"{evname(st[1])} = {tx(e[1])}")
+                    body.append(f"{evname(st[1])} |= {tx(e[2])}")
+                else:
+                    body.append(f"{evname(st[1])} = {tx(st[2])}")
             elif k == "bare":
                 body.append(tx(st[1]))
             elif k == "eventof":
